@@ -22,6 +22,10 @@ func main() {
 		for k := range props.All() {
 			fmt.Println(k)
 		}
+	case "srvdebug":
+		props.SrvDebug(os.Args[2:])
+	case "srvchild":
+		props.SrvChild(os.Args[2:])
 	case "run":
 		id := os.Args[2]
 		fs := flag.NewFlagSet("run", flag.ExitOnError)
